@@ -73,6 +73,10 @@ func makePool(rng *rand.Rand, w *world.World, cfg world.GenCfg) []poolOp {
 	pool = append(pool, poolOp{Class: "introspection", Name: "OpI", Text: "query OpI { __schema { queryType { name } } }", Vars: map[string]interface{}{}})
 	pool = append(pool, poolOp{Class: "invalid", Name: "OpBad", Text: "query OpBad { zzUnknownField }", Vars: map[string]interface{}{}})
 	pool = append(pool, poolOp{Class: "invalid-syntax", Name: "OpSyn", Text: "query OpSyn { ", Vars: map[string]interface{}{}})
+	// operations the gateway refuses by name, each with its own message
+	for _, n := range []string{"NoSuchOpA", "NoSuchOpB", "NoSuchOpC"} {
+		pool = append(pool, poolOp{Class: "unknown-operation-name", Name: n, Text: "query Present { __typename }", Vars: map[string]interface{}{}})
+	}
 	return pool
 }
 
@@ -191,6 +195,10 @@ func runBatch(g *gw.GW, ops []poolOp, steps [][]interface{}, seed int64) batchEv
 				ev.Order = append(ev.Order, fmt.Sprintf("Place%d", i))
 			case "Emit":
 				s.Release("r.select")
+			case "Burst":
+				// every operation's goroutine is held at its start; now all of them run at the same instant
+				ev.Mode = "burst"
+				s.Open()
 			}
 		}
 	}
@@ -299,7 +307,19 @@ func main() {
 				}
 				enc.Encode(map[string]interface{}{"ev": "Begin", "world": w.ID, "mode": "perturbed", "n": n})
 				bw.Flush()
-				enc.Encode(runBatch(g, pick(n), nil, rng.Int63()))
+				ops := pick(n)
+				if k%7 == 3 {
+					// many operations that are refused at the same point, each for its own reason, started at the same instant
+					for rep := 0; rep < 8; rep++ {
+						ops = make([]poolOp, 16)
+						for i := range ops {
+							ops[i] = pool[len(pool)-1-rng.Intn(3)]
+						}
+						enc.Encode(runBatch(g, ops, [][]interface{}{{"Burst"}}, 0))
+					}
+					continue
+				}
+				enc.Encode(runBatch(g, ops, nil, rng.Int63()))
 			}
 		}
 	}
